@@ -11,6 +11,8 @@ holds after `reset` and after every `step` (`jobshop_cached_mask_*`).
 import JumanjiModel.Env.JobShop.Lemmas
 import JumanjiModel.Env.JobShop.Bounds
 import JumanjiModel.Env.JobShop.CompletionLemmas
+import JumanjiModel.Env.JobShop.SpecLemmas
+import JumanjiModel.Env.JobShop.GenLemmas
 open Jm JobShop
 
 /-- a concrete mid-episode state (2 jobs, 2 machines, 2 ops; job 0's first op runs on machine 0
@@ -116,6 +118,40 @@ theorem jobshop_complete_is_solution (cfg : Cfg) (s : State) (a : List Int) (hI 
   (JobShop.completion_at_makespan cfg s a hI hL hD hnf hf).2
 
 example : Inv exCfg exState ∧ legalAction exCfg exState [2, 2] := by decide +kernel
+/-- whole episodes from ANY state satisfying the invariant along ANY sequence of joint actions each legal at its
+turn: after every prefix the invariant holds, in particular the hard constraints `Feasible` (start times in the
+past, job order respected, no two ops overlap within a job or on a machine) -/
+theorem jobshop_feasible_along_from (cfg : Cfg) (s : State) (as : List (List Int)) (hI : Inv cfg s)
+    (hal : AllLegal cfg s as) (k : Nat) :
+    Inv cfg (play cfg s (as.take k)).1 ∧ Feasible cfg (play cfg s (as.take k)).1 :=
+  ⟨JobShop.feasible_along cfg s as hI hal k, (JobShop.feasible_along cfg s as hI hal k).2.2.1⟩
+
+/-- whole episodes from ANY generated instance (any configuration, any valid draws of `RandomGenerator`) along ANY
+mask-respecting sequence (`AllMasked`: in-spec joint actions each of whose per-machine choices has its bit set in
+the action mask of the observation current at its turn): after every prefix the schedule satisfies the hard
+constraints -/
+theorem jobshop_feasible_along (cfg : Cfg) (midDraw durDraw : List (List Int)) (numOps : List Int)
+    (hd : validGenDraw cfg midDraw durDraw numOps) (as : List (List Int))
+    (hm : AllMasked cfg (generate cfg midDraw durDraw numOps) as) (k : Nat) :
+    Feasible cfg (play cfg (generate cfg midDraw durDraw numOps) (as.take k)).1 ∧
+    Inv cfg (play cfg (generate cfg midDraw durDraw numOps) (as.take k)).1 := by
+  have hc := JobShop.cert_state cfg _ (JobShop.generate_cert cfg midDraw durDraw numOps hd)
+  have hal := JobShop.allMasked_allLegal cfg as _ hc.2.1 hc.2.2 hm
+  have := JobShop.feasible_along cfg _ as hc.2.1 hal k
+  exact ⟨this.2.2.1, this⟩
+
+/-- the same from the toy instance -/
+theorem jobshop_feasible_along_toy (as : List (List Int)) (hm : AllMasked toyCfg toyState as) (k : Nat) :
+    Feasible toyCfg (play toyCfg toyState (as.take k)).1 := by
+  have hI : Inv toyCfg toyState := by decide +kernel
+  have hC : toyState.amask = maskOf toyCfg toyState := rfl
+  exact (JobShop.feasible_along toyCfg _ as hI (JobShop.allMasked_allLegal toyCfg as _ hI hC hm) k).2.2.1
+
+-- a mask-respecting sequence on a generated 2-job instance (job 0: two ops, job 1: one op)
+example : validGenDraw exCfg [[0, 1], [0, 1]] [[2, 1], [1, 2]] [2, 1] ∧
+    AllMasked exCfg (generate exCfg [[0, 1], [0, 1]] [[2, 1], [1, 2]] [2, 1]) [[0, 2], [2, 2], [1, 0]] := by
+  refine ⟨by decide +kernel, ?_⟩
+  simp only [AllMasked, Masked]; decide +kernel
 end Props.C06
 
 namespace Props.C08
@@ -211,7 +247,135 @@ the machine's last op completes and `ops_mask` again marks the real unscheduled 
 theorem jobshop_clock_eq (cfg : Cfg) (s : State) (a : List Int) (hI : Inv cfg s)
     (hL : legalAction cfg s a) : Bookkeeping cfg (step cfg s a).1 :=
   (JobShop.inv_next cfg s a hI hL).2.2.2
+
+/-- L1 = L2 for the whole step (refinement): on every state of legal play (the invariant `Inv`, fresh
+cached mask) and for every legal joint action, the transliterated `step` equals `stepSpec`
+(Env/JobShop/Spec.lean), the step written from the published rules in terms of the schedule alone:
+instance unchanged, clock + 1; an op gets the current clock as start time exactly when a machine's choice
+starts it as the next op of its job (`Hit`); `ops_mask` = real and unscheduled in the new schedule;
+`machines_remaining_times[m]` = time from the new clock until the last op scheduled on `m` completes
+(0 if none is running); `machines_job_ids[m]` = the job whose op occupied `m` during the time unit just
+played, the no-op id `J` if `m` was unoccupied; `action_mask` = the legality table of the rules in the
+new schedule; timestep = penalty and LAST when all machines are idle, otherwise reward −1 and LAST
+(discount 0) exactly when every real op is scheduled and has completed by the new clock, else MID
+(discount 1); observation = the six fields of the successor.  The equation covers all eight state
+fields and the whole timestep. -/
+theorem jobshop_step_eq_spec (cfg : Cfg) (s : State) (a : List Int) (hI : Inv cfg s)
+    (hC : s.amask = maskOf cfg s) (hL : legalAction cfg s a) : step cfg s a = stepSpec cfg s a :=
+  JobShop.step_eq_spec cfg s a hI hC hL
+
+/-- for an in-spec action the rules forbid only the timestep is claimed: implementation and rule-level
+step both end the episode (LAST, discount 0) with the penalty.  (`step` mutates the state also then,
+with gather semantics that are not rule-level.) -/
+theorem jobshop_step_illegal_spec (cfg : Cfg) (s : State) (a : List Int) (hI : Inv cfg s)
+    (hC : s.amask = maskOf cfg s) (hA : InSpec cfg a) (h : ¬ legalAction cfg s a) :
+    ((step cfg s a).2.stepType = .last ∧ (step cfg s a).2.reward = [penalty cfg] ∧
+      (step cfg s a).2.discount = [0]) ∧
+    ((stepSpec cfg s a).2.stepType = .last ∧ (stepSpec cfg s a).2.reward = [penalty cfg] ∧
+      (stepSpec cfg s a).2.discount = [0]) :=
+  JobShop.step_illegal_spec cfg s a hI hC hA h
+
+/-- with durations ≥ 1 (`DurationsOK`) "occupied machine `m` during `[t, t+1)`" is `start ≤ t < end` -/
+theorem jobshop_occupies_iff (cfg : Cfg) (s : State) (hD : DurationsOK cfg s) {m j k : Nat}
+    (hj : j < cfg.J) (hk : k < cfg.O) (t : Int) :
+    occupies s m j k t ↔
+      (isSched s j k ∧ s.midAt j k = (m : Int) ∧ s.schedAt j k ≤ t ∧ t < endTime s j k) :=
+  JobShop.occupies_iff_of_durations cfg s hD hj hk t
+
+/-- the hypotheses are satisfiable: on `exState` (machine 0 busy) the all-no-op action is legal; one step
+later (clock 2, both machines free) the action `[1, 0]` is legal and starts two ops -/
+example : Inv exCfg exState ∧ exState.amask = maskOf exCfg exState ∧ legalAction exCfg exState [2, 2] := by
+  decide +kernel
+example : Inv exCfg (next exCfg exState [2, 2]) ∧
+    (next exCfg exState [2, 2]).amask = maskOf exCfg (next exCfg exState [2, 2]) ∧
+    legalAction exCfg (next exCfg exState [2, 2]) [1, 0] ∧
+    Hit exCfg (next exCfg exState [2, 2]) [1, 0] 1 0 ∧ Hit exCfg (next exCfg exState [2, 2]) [1, 0] 0 1 := by
+  decide +kernel
+
+/-- sanity checks by evaluation, independent of the proof (`TimeStep` has no `DecidableEq`, so the
+timestep is compared field by field): a waiting step, a step that starts two ops and completes the
+schedule, a legal step that leaves all machines idle (penalty), and a first step -/
+example : (step exCfg exState [2, 2]).1 = (stepSpec exCfg exState [2, 2]).1 ∧
+    (step exCfg exState [2, 2]).2.stepType = (stepSpec exCfg exState [2, 2]).2.stepType ∧
+    (step exCfg exState [2, 2]).2.reward = (stepSpec exCfg exState [2, 2]).2.reward ∧
+    (step exCfg exState [2, 2]).2.discount = (stepSpec exCfg exState [2, 2]).2.discount ∧
+    (step exCfg exState [2, 2]).2.obs = (stepSpec exCfg exState [2, 2]).2.obs := by decide +kernel
+example : (step exCfg (next exCfg exState [2, 2]) [1, 0]).1 = (stepSpec exCfg (next exCfg exState [2, 2]) [1, 0]).1 ∧
+    (step exCfg (next exCfg exState [2, 2]) [1, 0]).2.stepType = .last ∧
+    (stepSpec exCfg (next exCfg exState [2, 2]) [1, 0]).2.stepType = .last ∧
+    (stepSpec exCfg (next exCfg exState [2, 2]) [1, 0]).2.reward = [-1] ∧
+    (step exCfg (next exCfg exState [2, 2]) [1, 0]).2.reward = (stepSpec exCfg (next exCfg exState [2, 2]) [1, 0]).2.reward ∧
+    (step exCfg (next exCfg exState [2, 2]) [1, 0]).2.discount = (stepSpec exCfg (next exCfg exState [2, 2]) [1, 0]).2.discount ∧
+    (step exCfg (next exCfg exState [2, 2]) [1, 0]).2.obs = (stepSpec exCfg (next exCfg exState [2, 2]) [1, 0]).2.obs ∧
+    (stepSpec exCfg (next exCfg exState [2, 2]) [1, 0]).1.sched = [[0, 2], [2, -1]] ∧
+    (stepSpec exCfg (next exCfg exState [2, 2]) [1, 0]).1.mjob = [1, 0] := by decide +kernel
+example : legalAction exCfg (next exCfg exState [2, 2]) [2, 2] ∧
+    (stepSpec exCfg (next exCfg exState [2, 2]) [2, 2]).1 = (step exCfg (next exCfg exState [2, 2]) [2, 2]).1 ∧
+    (stepSpec exCfg (next exCfg exState [2, 2]) [2, 2]).2.stepType = .last ∧
+    (stepSpec exCfg (next exCfg exState [2, 2]) [2, 2]).2.reward = [penalty exCfg] ∧
+    (step exCfg (next exCfg exState [2, 2]) [2, 2]).2.reward = [penalty exCfg] := by decide +kernel
+example : (step exCfg (initState exCfg [[0, 1], [0, -1]] [[2, 1], [1, -1]]) [0, 2]).1 =
+      (stepSpec exCfg (initState exCfg [[0, 1], [0, -1]] [[2, 1], [1, -1]]) [0, 2]).1 ∧
+    (stepSpec exCfg (initState exCfg [[0, 1], [0, -1]] [[2, 1], [1, -1]]) [0, 2]).2.stepType = .mid ∧
+    (stepSpec exCfg (initState exCfg [[0, 1], [0, -1]] [[2, 1], [1, -1]]) [0, 2]).2.reward = [-1] ∧
+    (stepSpec exCfg (initState exCfg [[0, 1], [0, -1]] [[2, 1], [1, -1]]) [0, 2]).2.discount = [1] := by
+  decide +kernel
 end Props.C09
+
+namespace Props.C10
+/-- `RandomGenerator`, transliterated with its three `randint` arrays as parameters (`generate cfg midDraw durDraw
+numOps` = `jnp.where(arange(O) < num_ops[:, None], draw, -1)` for machine ids and durations, the fresh machine /
+schedule fields, and the action mask `reset` adds): for EVERY configuration and EVERY valid draw (machine ids in
+`[0, M)`, durations in `[1, D]`, ops per job in `[1, O]`) the reset state satisfies the certificate `GenCert`:
+every job has between 1 and `max_num_ops` real ops followed by padding (−1), durations of real ops in
+`[1, max_op_duration]`, machine ids in `[0, num_machines)`, `ops_mask` true exactly on the real ops,
+`machines_job_ids` all no-op, remaining times 0, `scheduled_times` all −1, `step_count` 0, and the reset action mask
+equals the legality table of the rules.  `job_shop.instance` evaluates `GenCert` on the implementation's reset
+states (key `generate_cert`). -/
+theorem jobshop_generate_cert (cfg : Cfg) (midDraw durDraw : List (List Int)) (numOps : List Int)
+    (h : validGenDraw cfg midDraw durDraw numOps) : GenCert cfg (generate cfg midDraw durDraw numOps) :=
+  JobShop.generate_cert cfg midDraw durDraw numOps h
+
+/-- certificate ⇒ advertised invariants: machine ids valid, durations in range, padding consistent, every job has
+an op; the state is exactly the fresh state around its instance arrays; it satisfies the invariant of legal play
+(so C04/C06/C09 apply from it) and its cached mask is fresh -/
+theorem jobshop_cert_sound (cfg : Cfg) (s : State) (h : GenCert cfg s) :
+    MachinesOK cfg s ∧ DurationsOK cfg s ∧ PaddingOK cfg s ∧ (∀ j, j < cfg.J → isOp s j 0 ∧ 0 < cfg.O) ∧
+    s = initState cfg s.mid s.dur ∧ Inv cfg s ∧ s.amask = maskOf cfg s :=
+  ⟨(JobShop.cert_instance cfg s h).1, (JobShop.cert_instance cfg s h).2.1, (JobShop.cert_instance cfg s h).2.2.1,
+   (JobShop.cert_instance cfg s h).2.2.2, JobShop.cert_state cfg s h⟩
+
+example : validGenDraw exCfg [[0, 1], [0, 1]] [[2, 1], [1, 2]] [2, 1] ∧
+    (generate exCfg [[0, 1], [0, 1]] [[2, 1], [1, 2]] [2, 1]).mid = [[0, 1], [0, -1]] := by decide +kernel
+
+/-- `ToyGenerator` (a closed term): the reset state satisfies the same certificate, the invariant, and is not
+finished -/
+theorem jobshop_toy_ok : GenCert toyCfg toyState ∧ Inv toyCfg toyState ∧ DurationsOK toyCfg toyState ∧
+    PaddingOK toyCfg toyState ∧ finished toyCfg toyState = false := by decide +kernel
+
+/-- the documented makespan 8 of the toy instance is achieved by the action sequence of the repository's own test
+(`test_job_shop__toy_generator_reward`): the episode is legal, ends by completion at the 8th step, its return is −8,
+the final schedule is a complete feasible solution of makespan 8 -/
+theorem jobshop_toy_makespan_achieved :
+    EndsByCompletion toyCfg toyState toyActions ∧ (play toyCfg toyState toyActions).2 = -8 ∧
+    makespan toyCfg (play toyCfg toyState toyActions).1 = 8 ∧
+    IsSolution toyCfg (play toyCfg toyState toyActions).1 := by
+  refine ⟨?_, by decide +kernel, by decide +kernel, by decide +kernel⟩
+  simp only [toyActions, EndsByCompletion]; decide +kernel
+
+/-- … and 8 is optimal: in EVERY feasible schedule of the toy instance in which every real op is scheduled, every
+common bound on the completion times is at least 8 (machine 0 alone has 8 units of work) -/
+theorem jobshop_toy_makespan_optimal (s : State) (hm : s.mid = toyMid) (hd : s.dur = toyDur)
+    (hF : Feasible toyCfg s) (hall : ∀ j, j < 5 → ∀ k, k < 4 → isOp s j k → isSched s j k) (T : Int)
+    (hT : ∀ j, j < 5 → ∀ k, k < 4 → isSched s j k → endTime s j k ≤ T) : 8 ≤ T :=
+  JobShop.toy_lower_bound s hm hd hF hall T hT
+
+/-- in particular no complete solution of the toy instance is reached before the clock shows 8 -/
+theorem jobshop_toy_solution_clock (s : State) (hm : s.mid = toyMid) (hd : s.dur = toyDur)
+    (h : IsSolution toyCfg s) : 8 ≤ s.stepCount :=
+  JobShop.toy_lower_bound s hm hd h.1 (fun j hj k hk hop => (h.2.2 j hj k hk hop).1) s.stepCount
+    (fun j hj k hk hs => (h.2.2 j hj k hk hs.1).2)
+end Props.C10
 
 namespace Props.C11
 /-- progress: a legal step that does not leave all machines idle (i.e. is not penalised) consumes at
